@@ -862,4 +862,10 @@ def run(ctx, prog):
                      'ids = %s; closure is position → doc_ids[position]: %s; in-place changes of the id list: %s; write-back indexes %s (same list: %s); position list changed after the ids were built: %s'
                      % (full[:110], clo_ok, touched or 'none', posv, pos_same, late or 'no'))
         ctx.floor('C04.R6', 'canonical bulk fetches in bulk_query_with_source', n6, 1, 'the cold fallback')
+    # ------------------------------------------------------------------ R7 = C06.R6 (first half): an overwrite never lands on another document's slot
+    ctx.rule('C04.R7', 'canonical slots (= C06.R6, shared function): tombstone compaction renumbers every internal slot; a slot number looked up before a compaction is '
+                       'never used after it without a fresh lookup — otherwise an overwrite tombstones / clears the metadata of whatever document now sits in the old '
+                       'slot, and every (validated) read of that unrelated document faithfully serves the damaged canonical record')
+    from rules import C06 as _c06
+    _c06.stale_slots(ctx, prog, 'C04.R7')
     ctx.stat('functions_analysed', len(set(i['key'].split(' | ')[1] for i in ctx.instances)))
